@@ -172,6 +172,34 @@ void with_presentations(const Eigen::SparseMatrix<S, Flags, SI>& P, Fn fn)
     }
 }
 
+
+// Well-conditioned inputs on which elimination WITHOUT pivoting fails: class 1 = zero diagonal, O(1) couplings along a path, shift of size 1e-8..1e-12 (the
+// shifted diagonal is tiny but not zero); class 2 = constant diagonal d and a shift d(1 - 1e-11). Class 0 leaves the input alone. Returns the class.
+template <class S, class Real>
+int hostile_shift_class(vf::Rng& r, Eigen::Matrix<S, Eigen::Dynamic, Eigen::Dynamic>& F, Real& sigma, bool hermitian)
+{
+    const int n = (int) F.rows();
+    const int cls = n < 2 ? 0 : (r.coin(0.5) ? 0 : (int) r.range(1, 2));
+    if (cls == 0) return 0;
+    for (int i = 0; i + 1 < n; i++)
+    {
+        F(i + 1, i) = S(1);
+        F(i, i + 1) = hermitian ? S(1) : S(Real(0.5) + Real(r.uni()));
+    }
+    if (cls == 1)
+    {
+        F.diagonal().setZero();
+        sigma = Real((r.coin() ? 1 : -1) * std::pow(10.0, -(double) r.range(8, 12)));
+    }
+    else
+    {
+        const Real d = Real(r.coin() ? 1.0 : -2.5);
+        F.diagonal().setConstant(S(d));
+        sigma = d * (Real(1) - Real(1e-11));
+    }
+    return cls;
+}
+
 template <class V> std::vector<unsigned char> bytes_of(const V& v)
 {
     const unsigned char* p = (const unsigned char*) v.data();
